@@ -1,25 +1,34 @@
 #!/bin/bash
-# Re-judge every seeded change against the checks named in its meta.json (sequentially; each on a scratch worktree).
+# Re-judge every seeded change against the checks named in its meta.json (three at a time; each on its own scratch worktree,
+# so /repo, the committed evidence and the replays stay untouched).
 # usage: seeded_regress.sh [out_file]
 cd "$(dirname "$0")/.."
 out=${1:-/tmp/seeded_regress.txt}
-: > "$out"
-for d in seeded/C*-*/; do
-    id=$(basename "$d")
+tmp=$(mktemp -d /tmp/sregress.XXXXXX)
+trap 'rm -rf "$tmp"' EXIT
+judge_one() {
+    d=$1; id=$(basename "$d")
     props=$(python3 -c "import json;print(' '.join(json.load(open('$d/meta.json'))['checked']['caught_by']))")
     caught=no
     for p in $props; do
         res=$(tools/mutant.sh check "$d/patch.diff" "$p" 2>&1)
         if echo "$res" | grep -q "^VIOLATION property=$p" && echo "$res" | grep -q "CHECK $p rc=1"; then caught="$p"; break; fi
     done
-    echo "$id caught_by=$caught" | tee -a "$out"
-done
-for f in seeded/hand/*.diff; do
-    n=$(basename "$f" .diff); p=$(grep "^| $n " seeded/hand/README.md | cut -d'|' -f3 | tr -d ' ')
+    echo "$id caught_by=$caught"
+}
+judge_hand() {
+    f=$1; n=$(basename "$f" .diff); p=$(grep "^| $n " seeded/hand/README.md | cut -d'|' -f3 | tr -d ' ')
     res=$(tools/mutant.sh check "$f" "$p" 2>&1)
-    if echo "$res" | grep -q "^VIOLATION property=$p"; then echo "hand/$n caught_by=$p" | tee -a "$out"; else echo "hand/$n caught_by=no" | tee -a "$out"; fi
-done
-for f in seeded/negative/*.diff; do
-    res=$(tools/mutant.sh check "$f" C20 2>&1)
-    if echo "$res" | grep -q "CHECK C20 rc=0"; then echo "negative/$(basename $f .diff) silent=yes" | tee -a "$out"; else echo "negative/$(basename $f .diff) silent=NO" | tee -a "$out"; fi
-done
+    if echo "$res" | grep -q "^VIOLATION property=$p"; then echo "hand/$n caught_by=$p"; else echo "hand/$n caught_by=no"; fi
+}
+judge_neg() {
+    f=$1; res=$(tools/mutant.sh check "$f" C20 2>&1)
+    if echo "$res" | grep -q "CHECK C20 rc=0"; then echo "negative/$(basename $f .diff) silent=yes"; else echo "negative/$(basename $f .diff) silent=NO"; fi
+}
+export -f judge_one judge_hand judge_neg
+ls -d seeded/C*-*/ | xargs -P 3 -I{} bash -c 'judge_one {}' > "$tmp/a.txt"
+ls seeded/hand/*.diff | xargs -P 3 -I{} bash -c 'judge_hand {}' > "$tmp/b.txt"
+ls seeded/negative/*.diff | xargs -P 3 -I{} bash -c 'judge_neg {}' > "$tmp/c.txt"
+sort -V "$tmp/a.txt" > "$out"; sort "$tmp/b.txt" >> "$out"; sort "$tmp/c.txt" >> "$out"
+cat "$out"
+echo "not caught: $(grep -c 'caught_by=no' "$out")   negative controls reported: $(grep -c 'silent=NO' "$out")"
